@@ -34,6 +34,7 @@ func checkC18(p *Program, r *Reporter) {
 	r.Rule("E5-ERRRET", "every error result of a call is returned when non-nil (io.EOF branch exempt)", 6)
 	ruleErrorsReturned(p, r, "E5-ERRRET", fns, nil)
 	checkCursorProgress(p, r, fns, "E3-F1", 1)
+	readFullRule(p, r, fns)
 	// (c) nothing buffered is dropped at the end of input
 	parse := p.mustFunc(r, pkgChunk, "(*MP4ChunkParser).Parse")
 	if parse == nil {
